@@ -55,6 +55,12 @@ def sporkStep (s : SporkSt) : List String → Option (SporkSt × String)
     else if tag = "bridge" then some ({ s with bridge := some i }, "ok")
     else if tag = "htlc" then some ({ s with htlc := some i }, "ok")
     else none
+  | ["S-genesis", id, act, enf] => do
+    -- a spork of the genesis configuration (GenesisConfig.SporkConfig): part of the contract state of momentum 1
+    let enf ← enf.toNat?
+    let act ← (if act = "true" then some true else if act = "false" then some false else none)
+    let (s, i) := internId s id
+    pure ({ s with st := defineGenesis s.st i act enf }, "ok")
   | ["S-create", snd, fh, id] => do
     let snd ← parseSender snd
     let fh ← fh.toNat?
